@@ -126,6 +126,9 @@ class GeminiClientProtocol(asyncio.Protocol):
             # If status is not success (20-29), close immediately
             # (no body expected for non-success responses)
             if not (20 <= self.status < 30):
+                # Such a response is complete with its header: hand it over now,
+                # whatever becomes of the connection while it is torn down
+                self._deliver_header_only()
                 self.transport.close()  # type: ignore
                 # Whatever followed the header in this read is not a body
                 return
@@ -241,6 +244,18 @@ class GeminiClientProtocol(asyncio.Protocol):
             url=self.url,
         )
         self.response_future.set_result(response)
+
+    def _deliver_header_only(self) -> None:
+        """Resolve the call with the response a non-success header makes up."""
+        if not self.response_future.done():
+            self.response_future.set_result(
+                GeminiResponse(
+                    status=self.status,  # type: ignore
+                    meta=self.meta,  # type: ignore
+                    body=None,
+                    url=self.url,
+                )
+            )
 
     def _set_error(self, exc: Exception) -> None:
         """Set an error in the response future.
@@ -387,6 +402,9 @@ class TitanClientProtocol(asyncio.Protocol):
 
             # If status is not success (20-29), close immediately
             if not (20 <= self.status < 30):
+                # Such a response is complete with its header: hand it over now,
+                # whatever becomes of the connection while it is torn down
+                self._deliver_header_only()
                 if self.transport:
                     self.transport.close()
                 # Whatever followed the header in this read is not a body
@@ -492,6 +510,18 @@ class TitanClientProtocol(asyncio.Protocol):
             url=self.titan_url,
         )
         self.response_future.set_result(response)
+
+    def _deliver_header_only(self) -> None:
+        """Resolve the call with the response a non-success header makes up."""
+        if not self.response_future.done():
+            self.response_future.set_result(
+                GeminiResponse(
+                    status=self.status,  # type: ignore
+                    meta=self.meta,  # type: ignore
+                    body=None,
+                    url=self.titan_url,
+                )
+            )
 
     def _set_error(self, exc: Exception) -> None:
         """Set an error in the response future.
